@@ -335,18 +335,19 @@ func c09LessTable(c *Ctx, p *Prog, lessFn *ssa.Function, idxF *types.Var, R stri
 
 func c09Producer(c *Ctx, p *Prog, orderF, idxF *types.Var, flatMethod *types.Func) {
 	nProd := 0
+	// functions that record a rank themselves (loop-free ones may be helpers called from the recording loop)
+	updFns := map[*ssa.Function]bool{}
 	for _, fn := range p.Funcs("benchproc") {
-		hasUpd := false
 		eachInstr(fn, func(_ *ssa.BasicBlock, in ssa.Instruction) {
 			if mu, ok := in.(*ssa.MapUpdate); ok {
 				if f, _ := loadOfField(mu.Map); f == orderF {
-					hasUpd = true
+					updFns[fn] = true
 				}
 			}
 		})
-		if !hasUpd {
-			continue
-		}
+	}
+	isHelper := func(f *ssa.Function) bool { return f != nil && updFns[f] && len(naturalLoops(f)) == 0 }
+	for _, fn := range p.Funcs("benchproc") {
 		site := p.pos(fn.Pos())
 		for _, lp := range naturalLoops(fn) {
 			upd := false
@@ -356,6 +357,9 @@ func c09Producer(c *Ctx, p *Prog, orderF, idxF *types.Var, flatMethod *types.Fun
 						if f, _ := loadOfField(mu.Map); f == orderF {
 							upd = true
 						}
+					}
+					if call, ok := in.(*ssa.Call); ok && isHelper(call.Call.StaticCallee()) {
+						upd = true
 					}
 				}
 			}
@@ -385,7 +389,7 @@ func c09Producer(c *Ctx, p *Prog, orderF, idxF *types.Var, flatMethod *types.Fun
 			}
 			// step table
 			start := loopBodyStart(lp)
-			outs, why := e6Enumerate(func() *e6Interp { return &e6Interp{} }, start, lp.Header, iterStop(lp, start), 256)
+			outs, why := e6Enumerate(func() *e6Interp { return &e6Interp{Inline: isHelper} }, start, lp.Header, iterStop(lp, start), 256)
 			if why != "" {
 				c.Undecided("C09/R4", k, site, why)
 				continue
